@@ -33,6 +33,8 @@ const (
 	kMonth
 	kStale
 	kEpoch
+	kDrain
+	kWitness
 )
 
 type opdef struct {
@@ -44,11 +46,14 @@ type opdef struct {
 }
 
 type scen struct {
-	w     *chain.World
-	ops   []opdef
-	names []string
-	cons  sigs.Account
-	plans map[string]planstypes.Plan
+	origin0  string // origin bookkeeping at the start state
+	origins0 map[string]string
+	witness  sigs.Account // second consumer (only buys once); its plan reference is watched too
+	w        *chain.World
+	ops      []opdef
+	names    []string
+	cons     sigs.Account
+	plans    map[string]planstypes.Plan
 
 	// model: how the subscription obtained each (PlanIndex, PlanBlock) it references:
 	// buy / upgrade / renewal / advance-activation
@@ -66,7 +71,7 @@ func mkPlan(index string, price int64, totalCu uint64) planstypes.Plan {
 	return p
 }
 
-func build() *scen {
+func build(prefix ...string) *scen {
 	s := &scen{plans: map[string]planstypes.Plan{}}
 	w := chain.NewWorld()
 	s.w = w
@@ -76,6 +81,7 @@ func build() *scen {
 	// the plan-add operations, do not)
 	w.StdFixture(chain.StdOpts{Specs: []string{"mock"}, Providers: 2, Consumers: 0, Plan: &a, ExtraPlans: []planstypes.Plan{b}})
 	s.cons, _ = w.AddAccount(common.CONSUMER, 0, 10000000)
+	s.witness, _ = w.AddAccount(common.CONSUMER, 1, 10000000)
 	if p := w.AdvanceToNextEpoch(chain.BlockDt); p != "" {
 		panic("fixture: " + p)
 	}
@@ -95,15 +101,51 @@ func build() *scen {
 		{name: "->month-expiry(+5s)", kind: kMonth},
 		{name: "->stale-period(14 blocks)", kind: kStale},
 		{name: "->next-epoch", kind: kEpoch},
+		// the consumer sends its whole balance away (ordinary bank transfer): a later auto-renewal cannot be paid
+		{name: "drain(consumer funds)", kind: kDrain},
+		// a second consumer subscribes for a year to the latest version of plan A: its reference must survive whatever
+		// happens to the first consumer's subscription
+		{name: "witness:buy(A,12m)", kind: kWitness, plan: "a", months: 12},
 	}
 	for _, o := range s.ops {
 		s.names = append(s.names, o.name)
+	}
+	s.origins = map[string]string{}
+	// a start state on top of the fixture: the prefix operations are applied through Apply, then the state is pinned
+	for _, name := range prefix {
+		idx := -1
+		for i, n := range s.names {
+			if n == name {
+				idx = i
+			}
+		}
+		if idx < 0 {
+			panic("c13: unknown prefix op " + name)
+		}
+		if st := s.Apply(idx); !st.Accepted || len(st.Viol) > 0 {
+			panic(fmt.Sprintf("fixture: prefix op %s: %+v", name, st))
+		}
+	}
+	if len(prefix) > 0 {
+		w.MarkFixture()
+		s.origin0 = s.origin
+		s.origins0 = map[string]string{}
+		for k, v := range s.origins {
+			s.origins0[k] = v
+		}
 	}
 	return s
 }
 
 func (s *scen) Ops() []string { return s.names }
-func (s *scen) Reset()        { s.w.Reset(); s.origin = ""; s.origins = map[string]string{} }
+func (s *scen) Reset() {
+	s.w.Reset()
+	s.origin = s.origin0
+	s.origins = map[string]string{}
+	for k, v := range s.origins0 {
+		s.origins[k] = v
+	}
+}
 func (s *scen) Fork() func() {
 	r := s.w.Fork()
 	o := s.origin
@@ -175,6 +217,12 @@ func (s *scen) checkPlans() []ev.Violation {
 					out = append(out, viol("advance-purchase-plan-unfindable", fmt.Sprintf("at block %d the advance purchase of the live subscription references plan %s which FindPlan no longer finds", cur, fk)))
 				}
 			}
+		}
+	}
+	// the witness' subscription
+	if sub, found := w.Keepers.Subscription.GetSubscription(w.Ctx, s.witness.Addr.String()); found {
+		if _, ok := w.Keepers.Plans.FindPlan(w.Ctx, sub.PlanIndex, sub.PlanBlock); !ok {
+			out = append(out, viol("other-live-sub-plan-unfindable", fmt.Sprintf("at block %d the live subscription of a second consumer references plan %s@%d which FindPlan no longer finds (its reference was released by operations on the first consumer's subscription)", cur, sub.PlanIndex, sub.PlanBlock)))
 		}
 	}
 	return out
@@ -350,6 +398,18 @@ func (s *scen) Apply(op int) bfs.Step {
 	case kPlanDel:
 		res = w.DelPlanGov(o.plan)
 		obs = "plan-del"
+	case kWitness:
+		res = w.Buy(s.witness, s.witness, o.plan, o.months, false, false)
+		obs = "witness-buy"
+	case kDrain:
+		res = w.Tx(func() error {
+			bal := w.Keepers.BankKeeper.GetBalance(w.Ctx, s.cons.Addr, w.TokenDenom())
+			if !bal.IsPositive() {
+				return fmt.Errorf("nothing to send")
+			}
+			return w.Keepers.BankKeeper.SendCoinsFromAccountToModule(w.Ctx, s.cons.Addr, "verif_sink", sdk.NewCoins(bal))
+		})
+		obs = "drained"
 	}
 	if res.Panic != "" {
 		return bfs.Step{Accepted: false, Obs: "tx-panic", Viol: []ev.Violation{viol("tx-panic:"+o.name+":"+short(firstLine(res.Panic)), o.name+" panicked: "+firstLine(res.Panic))}}
@@ -408,10 +468,15 @@ func firstLine(s string) string {
 	return s
 }
 
-const nOps = 14
+const nOps = 16
 
 func init() {
 	bfs.Register("c13", func() bfs.Scenario { return build() })
+	// start state: the first consumer holds an auto-renewing subscription on the old version of plan A, a second consumer
+	// subscribed for a year to the new version
+	bfs.Register("c13/witnessed", func() bfs.Scenario {
+		return build("buy(A,1m,autoRenew)", "gov:plan-add(A,new version)", "->next-epoch", "witness:buy(A,12m)")
+	})
 	reg.Register(reg.Check{Property: "C13", Level: "model_checking", Run: func(run *ev.Run) {
 		depth, deadline := 5, 75*time.Second
 		if ev.Tier() == "thorough" {
@@ -420,8 +485,11 @@ func init() {
 		cfg := bfs.Config{Scenario: "c13", MaxDepth: depth, Deadline: deadlineScale(deadline)}
 		st := bfs.Explore(cfg, run)
 		bfs.Report(run, "", cfg, st)
-		run.Set("exhaustive", st.Exhaustive)
-		run.Set("bound", fmt.Sprintf("all histories up to depth %d over %d ops (buy A with/without auto-renewal, buy B = upgrade, advance purchase A, auto-renewal on / on with plan B / off, governance plan-add of a new version of A / B, plan-del A / B, jump to 5 s after the month expiry, 14 blocks (> stale period of 12), next epoch); one consumer, plans A (100) and B (200), EpochBlocks=4, EpochsToSave=3; invariant evaluated after every block", depth, nOps))
+		cfgW := bfs.Config{Scenario: "c13/witnessed", MaxDepth: depth, Deadline: deadlineScale(deadline * 2 / 3)}
+		stW := bfs.Explore(cfgW, run)
+		bfs.Report(run, "witnessed", cfgW, stW)
+		run.Set("exhaustive", st.Exhaustive && stW.Exhaustive)
+		run.Set("bound", fmt.Sprintf("all histories up to depth %d over %d ops (buy A with/without auto-renewal, buy B = upgrade, advance purchase A, auto-renewal on / on with plan B / off, governance plan-add of a new version of A / B, plan-del A / B, jump to 5 s after the month expiry, 14 blocks (> stale period of 12), next epoch, the consumer sends its funds away, a second consumer buys the latest version of A for a year); from the fixture and from a start state in which the second consumer already holds the new version of A while the first auto-renews the old one; plans A (100) and B (200), EpochBlocks=4, EpochsToSave=3; invariant evaluated after every block", depth, nOps))
 		run.Assume("mock bank/account keeper of testutil/keeper; transactions atomic as in baseapp (emulated by the driver); governance proposals applied through the plans proposal handler")
 	}})
 }
